@@ -199,6 +199,10 @@ def run(a, rep):
                 bad.append(("fresh-instance-id", "instance ids %s / %s are not fresh random (v4) ids" % (iid, res["second_instance_id"])))
             if res["with_id"].get("errorInstanceId") != FIXED_ID:
                 bad.append(("supplied-instance-id", "with_instance_id(%s) encodes as %s" % (FIXED_ID, res["with_id"].get("errorInstanceId"))))
+            if res["with_id_by_ref"] != res["with_id"]:
+                bad.append(("by-reference", "encode(&&e.with_instance_id(id)) gives %s, by value %s" % (M.dumps(res["with_id_by_ref"]), M.dumps(res["with_id"]))))
+            if res["service_by_ref"]["kind"] != res["with_id"]:
+                bad.append(("by-reference", "Error::service(cause, &e.with_instance_id(id)) carries %s, expected %s" % (M.dumps(res["service_by_ref"]["kind"]), M.dumps(res["with_id"]))))
             # parameters
             want = {}
             for (f, safe), x in zip(args, v):
